@@ -1,4 +1,4 @@
-"""C07 -- (double-cover logic only) rotations are unique: canonical half, [G; -G] layout.
+"""C07 -- (half selection and double-cover logic) rotations are unique: canonical half, one row per rotation, [G; -G] layout.
 
 Real `q_in_upper_sphere`, `hemisphere_quaternion_set`, `find_inverse_quaternion`, `SphereGrid4Dim._gen_grid`,
 `SphereGridNDim.gen_grid` (shape / norm assertions, cell-model threshold), `get_grid_as_array`, `get_upper_indices`,
@@ -25,6 +25,11 @@ STUBS = ["the generator: a subclass whose _gen_grid installs an arbitrary symbol
          "rotobj.HalfRotobjVoronoi (Qhull) -> inert object", "sqrt -> fresh variable r>=0, r^2=x"]
 ASSUMPTIONS = ["every coordinate is 0 or |x| > 1e-5 (true for lattice projections; it keeps the np.allclose tolerance band out: a coordinate in (0,1e-8] "
                "makes q and -q both 'upper', which no generator can produce)", "float modelled by the reals"]
+FUNCTIONS += ["molgri.space.polytopes.Cube4DPolytope.get_half_of_hypercube", "utils.which_row_is_k", "rotobj.FullDivCube4DRotations._gen_grid", "rotobj.Cube4DRotations._gen_grid"]
+STUBS += ["`halfsel` shapes: Cube4DPolytope -> stand-in holding a given node array (8 antipodal pairs in a scrambled central-index order; the graph, "
+          "its subdivision and the projection are a concrete run: outside); the REAL get_half_of_hypercube is borrowed from the class",
+          "`halfsel`: branch feasibility is first decided on the linear part of the path condition (sound for `infeasible`; a linear condition "
+          "that is feasible there is taken as feasible); sqrt of a row's squared norm is 1 when the unit-norm assumptions alone imply it"]
 OUTSIDE = ["that the polytope / random generators return N pairwise distinct, well separated unit points for every N (concrete run, DESIGN section 6)",
            "N beyond the bound"]
 EPS = z3.RealVal("1/100000")
@@ -33,6 +38,9 @@ EPS = z3.RealVal("1/100000")
 def bounds(tier):
     return {"single_quaternion": "all sign/zero structures", "hemisphere_quaternion_set": "N<=2 (thorough 3) arbitrary quaternions, both `upper` values",
             "fulldiv_size_gate": "N in {8, 40, 272, 2080} each as a case; every other integer N >= 1 symbolic",
+            "half_selection": "16 nodes = 8 antipodal pairs: 6 concrete (projected hypercube vertices), 2 symbolic unit quaternions with 0..3 leading zeros each "
+                              "(all 15 combinations for fulldiv, N = 8 of 8; 6 (thorough 15) for cube4D, N = 5 of 8); leading non-zero coordinate of a symbolic node "
+                              "more than 1e-3 away from 0 and from +-1/2",
             "double_cover": "N in 1..4 canonical unit rows (quick: for N=4 rows 3,4 have a positive first coordinate); plus an axis-aligned row of symbolic length off 1 by > 1e-3 (assertion)"}
 
 
@@ -48,6 +56,15 @@ def shapes(tier, seed):
         out.append({"kind": "double", "N": N, "unit": True, "lead": N, "history": True})
     for N in (8, 40, 272, 2080, "other"):
         out.append({"kind": "fulldiv", "N": N})
+    # half selection of the hypercube algorithms on a polytope stand-in: two symbolic antipodal pairs among six concrete ones; (za, zb) =
+    # number of leading zero coordinates of the two symbolic quaternions (the ties of the canonical-half test)
+    for za in range(4):
+        for zb in range(4):
+            if (za, zb) == (3, 3):
+                continue          # a = +-b = (0, 0, 0, +-1): not two different rotations
+            out.append({"kind": "halfsel", "alg": "fulldiv", "za": za, "zb": zb})
+    for (za, zb) in ((0, 0), (0, 1), (1, 0), (1, 1), (2, 3), (3, 1)) if tier == "quick" else [(a, b) for a in range(4) for b in range(4) if (a, b) != (3, 3)]:
+        out.append({"kind": "halfsel", "alg": "cube4D", "za": za, "zb": zb})
     return out
 
 
@@ -64,7 +81,7 @@ def canonical(q):
 
 
 def run_shape(shape):
-    return {"upper": run_upper, "hemi": run_hemi, "double": run_double, "fulldiv": run_fulldiv}[shape["kind"]](shape)
+    return {"upper": run_upper, "hemi": run_hemi, "double": run_double, "fulldiv": run_fulldiv, "halfsel": run_halfsel}[shape["kind"]](shape)
 
 
 def run_fulldiv(shape):
@@ -257,6 +274,222 @@ def run_double(shape):
     return acc.result(eng.stats, prover.stats)
 
 
+
+# ------------------------------------------------------------------------------------------ half selection of the hypercube algorithms
+# six concrete antipodal pairs (vertices of the hypercube, projected) ...
+_V = [(1, 1, 1, 1), (1, 1, -1, 1), (1, -1, 1, -1), (1, -1, -1, 1), (1, 1, 1, -1), (1, -1, 1, 1)]
+HS_CONCRETE = [[0.5 * c for c in v] for v in _V]
+# ... and the order of the 16 nodes (central index): pairs 0..5 concrete, 6 = a, 7 = b; sign +1 / -1.  Partners are neither adjacent nor
+# in a regular pattern, and the canonical member of a pair comes first for some pairs and second for others
+HS_ORDER = [(0, -1), (6, 1), (1, 1), (7, -1), (2, -1), (0, 1), (3, 1), (6, -1), (4, -1), (1, -1), (5, 1), (7, 1), (2, 1), (3, -1), (5, -1), (4, 1)]
+HS_SEP = z3.RealVal("1/1000")
+
+
+def _hs_nodes(a, b, num):
+    pairs = [[num(c) for c in v] for v in HS_CONCRETE] + [list(a), list(b)]
+    return [[sgn * x for x in pairs[j]] for (j, sgn) in HS_ORDER], pairs
+
+
+def _hs_premises(a, b, za, zb):
+    """polytope contract for the node set: closed under negation (by construction), unit rows, every coordinate 0 or clear of the
+    tolerance band, the stated leading zeros, and any two different nodes differ by more than 1e-3 in some coordinate: the leading
+    non-zero coordinate of a symbolic node is more than 1e-3 away from 0 and from +-1/2 (every coordinate of the concrete nodes is +-1/2),
+    and a, b differ from each other and from each other's negative"""
+    pre = []
+    half = z3.RealVal("1/2")
+    for q, zq in ((a, za), (b, zb)):
+        lead = q[zq]
+        pre += [q[k] == 0 for k in range(zq)] + [generic(x) for x in q[zq + 1:]]
+        pre.append(z3.Or(lead > half + HS_SEP, z3.And(lead > HS_SEP, lead < half - HS_SEP), z3.And(lead < -HS_SEP, lead > -half + HS_SEP), lead < -half - HS_SEP))
+        pre.append(z3.Sum([x * x for x in q]) == 1)
+        pre += [z3.And(x >= -1, x <= 1) for x in q]      # implied by the unit norm; stated so that the linear part of a query knows it
+
+    def apart(u, v):
+        return z3.Or([z3.Or(u[k] - v[k] > HS_SEP, v[k] - u[k] > HS_SEP) for k in range(4)])
+    if za == zb:
+        pre += [apart(a, b), apart(a, [-x for x in b])]
+    return pre
+
+
+class _HSPoly:
+    """stand-in for Cube4DPolytope at one subdivision level: the node array (central-index order) is given; the real
+    get_half_of_hypercube is borrowed from the class"""
+    nodes = None
+
+    def __init__(self):
+        self.divides = 0
+
+    def divide_edges(self):
+        self.divides += 1
+        if self.divides > 3:
+            raise RuntimeError("stand-in polytope subdivided more than three times")
+
+    def get_nodes(self, N=None, projection=False):
+        arr = type(self).nodes.copy()
+        return arr if N is None else arr[:N]
+
+
+def _hs_poly_class(P, nodes):
+    return type("HSPoly", (_HSPoly,), {"nodes": nodes, "get_half_of_hypercube": P.Cube4DPolytope.get_half_of_hypercube})
+
+
+def _hs_build(RO, alg):
+    if alg == "fulldiv":
+        return RO.FullDivCube4DRotations(N=8)
+    return RO.Cube4DRotations(N=5)
+
+
+def run_halfsel(shape):
+    """The hypercube algorithms take their N rotations from `Cube4DPolytope.get_half_of_hypercube` (canonical-hemisphere test per node,
+    row search, central-index order, first N).  Here the REAL FullDivCube4DRotations / Cube4DRotations `_gen_grid`, the REAL
+    get_half_of_hypercube, q_in_upper_sphere, which_row_is_k, SphereGrid4Dim._gen_grid and gen_grid run on a polytope whose 16 nodes are 8
+    antipodal pairs in a scrambled order: six concrete, two SYMBOLIC unit quaternions a, b with za / zb leading zeros (ties of the
+    hemisphere test) -- every value of the remaining coordinates at once.  fulldiv: N = 8 of 8 pairs; cube4D: N = 5 of 8."""
+    import molgri.space.rotobj as RO
+    import molgri.space.utils as U
+    import molgri.space.polytopes as P
+    alg, za, zb = shape["alg"], shape["za"], shape["zb"]
+    a = [z3.Real(f"a{k}") for k in range(4)]
+    b = [z3.Real(f"b{k}") for k in range(4)]
+    N = 8 if alg == "fulldiv" else 5
+    eng = Engine()
+    eng.decide_timeout_ms = 3000
+    eng.relax_nonlinear = True
+    eng.trust_relaxation = True
+    eng.sqrt_known_constants = True
+    prover = Prover(timeout_ms=10000, budget_s=300)
+    acc = Acc(shape)
+    eng.assume_global(*_hs_premises(a, b, za, zb))
+    proxy = NPProxy()
+
+    class Inert:
+        def __init__(self, *a_, **k):
+            pass
+
+    def body():
+        rows, _ = _hs_nodes([SR(x) for x in a], [SR(x) for x in b], float)
+        poly = _hs_poly_class(P, sarr(rows))
+        with bound(RO, np=proxy, print=noprint, HalfRotobjVoronoi=Inert, RotobjVoronoi=Inert, Cube4DPolytope=poly), bound(U, np=proxy, print=noprint), \
+                bound(P, np=proxy, print=noprint):
+            g = _hs_build(RO, alg)
+            g.gen_grid()
+            return g.get_grid_as_array(only_upper=False), g.get_grid_as_array(), g.get_N()
+
+    nodes_z, pairs_z = _hs_nodes(a, b, lambda c: z3.RealVal(str(c)))
+    for path in eng.explore(body):
+        acc.begin(prover, path)
+        if acc.reachable is not True:
+            acc.reach(prover.satisfiable(path.premises))
+        cexinfo = lambda: {"model": _hs_model(path)}      # noqa: E731
+        if path.kind == "exc":
+            acc.structural("no_exception", False, detail=repr(path.value) + (path.tb or "")[-500:], cex=dict(cexinfo(), kind="exception", exc=type(path.value).__name__))
+            continue
+        full, half, n_ = path.value
+        ok = tuple(np.shape(full)) == (2 * N, 4) and tuple(np.shape(half)) == (N, 4) and n_ == N
+        acc.structural("shapes", ok, detail=(np.shape(full), np.shape(half), n_), cex=None if ok else cexinfo())
+        if not ok:
+            continue
+        rows = [[z(half[i, k]) for k in range(4)] for i in range(N)]
+        eq = lambda u, v, sg=1: z3.And([u[k] == sg * v[k] for k in range(4)])      # noqa: E731
+        claims = []
+        for i in range(N):
+            claims.append((f"row_in_canonical_half[{i}]", canonical(rows[i])))
+            claims.append((f"row_is_a_node_of_the_polytope[{i}]", z3.Or([z3.Or(eq(rows[i], pq), eq(rows[i], pq, -1)) for pq in pairs_z])))
+            for j in range(i):
+                claims.append((f"rows_are_different_rotations[{j},{i}]", z3.Not(z3.Or(eq(rows[i], rows[j]), eq(rows[i], rows[j], -1)))))
+            for k in range(4):
+                claims.append((f"first_half_of_double_cover_is_G[{i},{k}]", z(full[i, k]) == rows[i][k]))
+                claims.append((f"second_half_is_minus_G[{i},{k}]", z(full[N + i, k]) == -rows[i][k]))
+        if alg == "fulldiv":
+            for j, pq in enumerate(pairs_z):
+                claims.append((f"every_rotation_of_the_level_is_present[{j}]", z3.Or([z3.Or(eq(r_, pq), eq(r_, pq, -1)) for r_ in rows])))
+        # every claim is linear in a, b once the path has fixed which node is which row: the linear part of the premises is tried first
+        acc.add(prover.prove_all(path.premises, claims, slice_=[p_ for p_ in path.premises if eng._is_linear(p_)]), make_cex=lambda r_: cexinfo())
+    return acc.result(eng.stats, prover.stats)
+
+
+def _hs_model(path):
+    s_ = z3.Solver()
+    s_.set("timeout", 5000)
+    s_.add(*path.premises)
+    if s_.check() != z3.sat:
+        return {}
+    from symx.prove import model_to_dict
+    return {k: (str(v) if not isinstance(v, bool) else v) for k, v in model_to_dict(s_.model()).items()}
+
+
+def _hs_candidates(shape, model, rng):
+    """concrete (a, b) for the replay: the solver's model first, then generic and tie-rich members of the shape's family"""
+    za, zb = shape["za"], shape["zb"]
+    out = []
+    am = [fval(model, f"a{k}", None) for k in range(4)]
+    bm = [fval(model, f"b{k}", None) for k in range(4)]
+    if all(x is not None for x in am + bm):
+        out.append((np.array(am, dtype=float), np.array(bm, dtype=float)))
+    for _ in range(40):
+        pair = []
+        for zq in (za, zb):
+            v = rng.choice([-0.9, -0.6, -0.3, 0.0, 0.2, 0.45, 0.8], size=4) + rng.normal(scale=0.01, size=4) * (rng.random(4) < 0.7)
+            v[:zq] = 0.0
+            if abs(v[zq]) < 1e-3:
+                v[zq] = rng.choice([-0.7, 0.7])
+            v[np.abs(v) < 2e-5] = 0.0
+            pair.append(v / np.linalg.norm(v))
+        out.append(tuple(pair))
+    return out
+
+
+def replay_halfsel(cex):
+    import contextlib, io
+    import molgri.space.rotobj as RO
+    import molgri.space.polytopes as P
+    s = cex["shape"]
+    model = cex.get("model", {}) or {}
+    rng = np.random.default_rng(5)
+    N = 8 if s["alg"] == "fulldiv" else 5
+    bad = []
+
+    class Inert:
+        def __init__(self, *a_, **k):
+            pass
+    for a, b in _hs_candidates(s, model, rng):
+        rows, pairs = _hs_nodes(list(a), list(b), float)
+        nodes = np.array(rows, dtype=float)
+        allp = np.array(pairs, dtype=float)
+        d = np.abs(nodes[:, None, :] - nodes[None, :, :]).max(axis=2) + np.eye(16)
+        if d.min() <= 1e-3 or np.any((np.abs(nodes) > 0) & (np.abs(nodes) <= 1e-5)) or not np.allclose(np.linalg.norm(nodes, axis=1), 1.0, atol=1e-9):
+            continue          # outside the stated node contract
+        old = (RO.HalfRotobjVoronoi, RO.Cube4DPolytope)
+        RO.HalfRotobjVoronoi, RO.Cube4DPolytope = Inert, _hs_poly_class(P, nodes)
+        try:
+            with contextlib.redirect_stdout(io.StringIO()):
+                g = _hs_build(RO, s["alg"])
+                g.gen_grid()
+                full, half = np.asarray(g.get_grid_as_array(only_upper=False), dtype=float), np.asarray(g.get_grid_as_array(), dtype=float)
+        except Exception as e:  # noqa: BLE001
+            return {"reproduced": True, "detail": f"a={a.tolist()} b={b.tolist()}: raised {e!r}"}
+        finally:
+            RO.HalfRotobjVoronoi, RO.Cube4DPolytope = old
+        what = []
+        if full.shape != (2 * N, 4) or half.shape != (N, 4):
+            what.append(f"shapes {full.shape} {half.shape}")
+        else:
+            if not all(_canon_f(list(r)) for r in half):
+                what.append("a row outside the canonical half")
+            owner = []
+            for r in half:
+                hit = [j for j in range(8) if np.array_equal(r, allp[j]) or np.array_equal(r, -allp[j])]
+                owner.append(hit[0] if hit else None)
+            if any(o is None for o in owner):
+                what.append("a row that is no node of the polytope")
+            elif len(set(owner)) != N:
+                what.append(f"two rows for one rotation (pairs {owner})")
+            if not np.array_equal(full[:N], half) or not np.array_equal(full[N:], -half):
+                what.append("the double cover is not [G; -G]")
+        if what:
+            bad.append(f"a={a.tolist()} b={b.tolist()}: {what}")
+    return {"reproduced": bool(bad), "detail": str(bad[:2])}
+
 # ------------------------------------------------------------------------------------------ replay on the real code
 def _canon_f(q):
     for x in q:
@@ -275,6 +508,8 @@ def replay(cex):
     model = cex.get("model", {}) or {}
     rng = np.random.default_rng(3)
     bad = []
+    if s["kind"] == "halfsel":
+        return replay_halfsel(cex)
     if s["kind"] == "fulldiv":
         class Counter:
             def __init__(self):
@@ -415,8 +650,19 @@ def generator_contract():
     return n
 
 
+DEFERRED_ERRORS = []
+
+
 def selftest(seed):
-    n = generator_contract()
+    # a generator that breaks the contract is reported AFTER the exploration: if the solver confirms a violation (the `halfsel` shapes run
+    # the half selection itself) that is the verdict; otherwise the run is a harness error -- never a pass
+    del DEFERRED_ERRORS[:]
+    n = 0
+    try:
+        n = generator_contract()
+    except Exception:  # noqa: BLE001
+        import traceback
+        DEFERRED_ERRORS.append("contract of the concrete generators broken (the `double` shapes assume it):\n" + traceback.format_exc()[-1500:])
     for v in itertools.product((-1.0, 0.0, 1.0), repeat=3):
         s = z3.Solver()
         q = [z3.RealVal(str(x)) for x in v]
